@@ -9,6 +9,7 @@ pub assume_specification<T>[ <T as core::convert::From<T>>::from ](t: T) -> (r: 
 //@type src/bitstr.rs enum Byteorder keep=PartialEq,Eq,Structural,Clone,Copy
 //@type src/bitstr.rs const LITTLE
 //@type src/bitstr.rs const BIG
+//@type src/bitstr.rs const NATIVE
 impl Clone for Bitstr {
     #[verifier::external_body]
     fn clone(&self) -> (r: Self) ensures r == *self { unimplemented!() }
